@@ -327,7 +327,8 @@ impl ShardFileManager {
             /*@C11*/ ret is Ok ==> locked_here(*self),
 //@ before `if lg.shard_file_size() >= self.target_shard_min_size`
         proof {
-            assert((*lg).has(VxRecId::Cas(cas_block_contents.metadata.cas_hash)));
+            // carries the property: after the insert the block's key IS in the state still held under the write lock
+            /*@C11*/ assert((*lg).has(VxRecId::Cas(cas_block_contents.metadata.cas_hash)));
             assert forall|x: VxRecId| vx_old_lg_1.has(x) implies (*lg).has(x) by {}
         }
 //@ end
@@ -340,7 +341,8 @@ impl ShardFileManager {
         ensures /*@C11*/ ret is Ok ==> vx_recorded(VxRecId::File(file_info.metadata.file_hash)) && locked_here(*self),
 //@ before `if lg.shard_file_size() >= self.target_shard_min_size`
         proof {
-            assert((*lg).has(VxRecId::File(file_info.metadata.file_hash)));
+            // carries the property: after the insert the record's key IS in the state still held under the write lock
+            /*@C11*/ assert((*lg).has(VxRecId::File(file_info.metadata.file_hash)));
             assert forall|x: VxRecId| vx_old_lg_1.has(x) implies (*lg).has(x) by {}
         }
 //@ end
